@@ -26,9 +26,10 @@ import (
 
 type z9Scenario struct {
 	Name       string   `json:"name"`
-	Op         string   `json:"op"`                // pull, push
-	Present    int      `json:"present,omitempty"` // push: the registry already holds the first n layers
-	Handler    bool     `json:"handler,omitempty"` // pull through registry.Local's /api/pull handler (its retry loop around Pull)
+	Op         string   `json:"op"`                    // pull, push
+	Present    int      `json:"present,omitempty"`     // push: the registry already holds the first n layers
+	CancelLate bool     `json:"cancel_late,omitempty"` // the client goes away exactly before some request or body piece (class cancel)
+	Handler    bool     `json:"handler,omitempty"`     // pull through registry.Local's /api/pull handler (its retry loop around Pull)
 	Layers     []int    `json:"layers"`
 	Config     int      `json:"config"` // size of the config blob (0: none)
 	MaxStreams int      `json:"max_streams"`
@@ -212,12 +213,24 @@ func z9Body(sc z9Scenario) func() {
 				reg.ReadTimeout = 0 // the clean attempt is not allowed to be slow either (an early clock advance would be a stall)
 			}
 			ctx, cancel := gocontext.WithCancel(gocontext.Background())
+			srv.OnNetPoint = nil
 			if sc.Cancel && !clean {
 				mcrt.GoNamed(fmt.Sprintf("cancel%d", attempt), func() {
 					mcrt.Yield("client goes away")
 					mcrt.Observe("cancel")
 					cancel()
 				})
+			}
+			if sc.CancelLate && !clean {
+				// exactly before a request or a piece of a body, however late in the transfer (one deviation of class cancel)
+				gone := false
+				srv.OnNetPoint = func(label string) {
+					if !gone && mcrt.Choose(mcrt.Cancel, "client goes away before "+label, "no", "yes") == 1 {
+						gone = true
+						mcrt.Observe("cancel before %s", label)
+						cancel()
+					}
+				}
 			}
 			var err error
 			if sc.Handler {
@@ -317,6 +330,16 @@ func z9Push(sc z9Scenario, w *z9World, reg *Registry, c *blob.DiskCache) {
 			cancel()
 		})
 	}
+	if sc.CancelLate {
+		gone := false
+		srv.OnNetPoint = func(label string) {
+			if !gone && mcrt.Choose(mcrt.Cancel, "client goes away before "+label, "no", "yes") == 1 {
+				gone = true
+				mcrt.Observe("cancel before %s", label)
+				cancel()
+			}
+		}
+	}
 	err := reg.Push(ctx, z9Name, nil)
 	cancel()
 	mcrt.WaitIdle(false)
@@ -356,6 +379,8 @@ func z9Scenarios(thorough bool) []z9Scenario {
 		{Name: "handler-two-layers", Op: "pull", Layers: []int{3, 12}, Config: 2, MaxStreams: 1, Handler: true, Faults: []string{"500", "neterr"}, Faulty: 1},
 		{Name: "push", Op: "push", Layers: []int{3, 12}, MaxStreams: 2, Faults: []string{"500", "neterr"}},
 		{Name: "push-cancel", Op: "push", Layers: []int{3, 12}, MaxStreams: 1, Cancel: true},
+		{Name: "push-cancel-late", Op: "push", Layers: []int{3, 12}, MaxStreams: 1, CancelLate: true, Faults: []string{"500"}},
+		{Name: "chunked-cancel-late", Op: "pull", Layers: []int{12, 3}, MaxStreams: 2, CancelLate: true, Faults: []string{"500", "flip"}, Faulty: 1},
 		{Name: "push-present", Op: "push", Layers: []int{3, 12}, MaxStreams: 1, Present: 1, Faults: []string{"500", "neterr"}},
 		{Name: "push-present-parallel", Op: "push", Layers: []int{3, 12, 5}, MaxStreams: 2, Present: 2, Faults: []string{"500"}},
 	}
@@ -373,6 +398,7 @@ func z9Scenarios(thorough bool) []z9Scenario {
 func z9Bounds(thorough bool) mcrt.Bounds {
 	var b mcrt.Bounds
 	b[mcrt.Fault] = 1
+	b[mcrt.Cancel] = 1
 	b[mcrt.Preempt] = 1
 	b[mcrt.Switch] = 1
 	b[mcrt.Time] = 1
